@@ -2,6 +2,6 @@
 # tools/runall.sh [-j N] [--tier T] [--seed S] [ids...]   run checks in parallel, one summary line each
 J=4; ARGS=(); IDS=()
 while [ $# -gt 0 ]; do case $1 in -j) J=$2; shift 2;; --tier|--seed|--n) ARGS+=($1 $2); shift 2;; *) IDS+=($1); shift;; esac; done
-[ ${#IDS[@]} -eq 0 ] && IDS=($(cd /verif && ./check --list))
-cd /verif
+[ ${#IDS[@]} -eq 0 ] && IDS=($(cd "$(dirname "$0")/.." && ./check --list))
+cd "$(dirname "$0")/.."
 printf '%s\n' "${IDS[@]}" | xargs -P $J -I{} sh -c './check {} '"${ARGS[*]}"' > .work/runall-{}.out 2>&1; echo "{} rc=$? $(grep -E "^(OK|VIOLATION|KNOWN)" .work/runall-{}.out | head -4 | cut -c1-150 | tr "\n" ";")"'
